@@ -314,4 +314,105 @@ pub mod GPOS {
 #[allow(unused_imports, dead_code, missing_docs)]
 pub mod verif_hooks {
     use super::*;
+    use alloc::vec;
+    use alloc::vec::Vec;
+
+    /// (x_advance, y_advance, x_offset, y_offset, attach_chain, attach_type)
+    pub type P = (i32, i32, i32, i32, i16, u8);
+
+    pub fn mk_pos(v: P) -> GlyphPosition {
+        let mut p = GlyphPosition::default();
+        p.x_advance = v.0;
+        p.y_advance = v.1;
+        p.x_offset = v.2;
+        p.y_offset = v.3;
+        p.set_attach_chain(v.4);
+        p.set_attach_type(v.5);
+        p
+    }
+
+    pub fn rd_pos(p: &GlyphPosition) -> P {
+        (
+            p.x_advance,
+            p.y_advance,
+            p.x_offset,
+            p.y_offset,
+            p.attach_chain(),
+            p.attach_type(),
+        )
+    }
+
+    /// One call of the private `propagate_attachment_offsets`.
+    pub fn propagate(pos: &[P], len: usize, i: usize, direction: Direction) -> Vec<P> {
+        let mut v: Vec<GlyphPosition> = pos.iter().map(|p| mk_pos(*p)).collect();
+        propagate_attachment_offsets(&mut v, len, i, direction);
+        v.iter().map(rd_pos).collect()
+    }
+
+    fn mk_buffer(pos: &[P], len: usize, direction: Direction) -> hb_buffer_t {
+        let mut b = hb_buffer_t::new();
+        b.direction = direction;
+        b.pos = pos.iter().map(|p| mk_pos(*p)).collect();
+        b.info = vec![hb_glyph_info_t::default(); pos.len()];
+        b.len = len;
+        b.have_positions = true;
+        b
+    }
+
+    /// `GPOS::position_finish_offsets` on a bare buffer.
+    pub fn finish_offsets(
+        face: &hb_font_t,
+        pos: &[P],
+        len: usize,
+        direction: Direction,
+        has_attachment: bool,
+    ) -> Vec<P> {
+        let mut b = mk_buffer(pos, len, direction);
+        if has_attachment {
+            b.scratch_flags |= HB_BUFFER_SCRATCH_FLAG_HAS_GPOS_ATTACHMENT;
+        }
+        GPOS::position_finish_offsets(face, &mut b);
+        b.pos.iter().map(rd_pos).collect()
+    }
+
+    /// `GPOS::position_start` on a bare buffer.
+    pub fn position_start(face: &hb_font_t, pos: &[P], len: usize) -> Vec<P> {
+        let mut b = mk_buffer(pos, len, Direction::LeftToRight);
+        GPOS::position_start(face, &mut b);
+        b.pos.iter().map(rd_pos).collect()
+    }
+
+    /// Parses one GPOS subtable of lookup type `kind` from `data` and applies it at `idx` through the
+    /// real `Apply` impl. infos: (glyph id, glyph_props, lig_props); every glyph gets mask 1.
+    /// Returns (applied, new buffer.idx, positions, HAS_GPOS_ATTACHMENT set).
+    pub fn apply_subtable(
+        face: &hb_font_t,
+        kind: u16,
+        data: &[u8],
+        lookup_props: u32,
+        direction: Direction,
+        infos: &[(u32, u16, u8)],
+        pos: &[P],
+        idx: usize,
+    ) -> Option<(bool, usize, Vec<P>, bool)> {
+        use ttf_parser::opentype_layout::LookupSubtable;
+        let sub = PositioningSubtable::parse(data, kind)?;
+        let mut b = mk_buffer(pos, infos.len(), direction);
+        for (k, (g, gp, lp)) in infos.iter().enumerate() {
+            b.info[k].glyph_id = *g;
+            b.info[k].mask = 1;
+            b.info[k].cluster = k as u32;
+            b.info[k].set_glyph_props(*gp);
+            b.info[k].set_lig_props(*lp);
+        }
+        b.idx = idx;
+        let applied;
+        {
+            let mut ctx = hb_ot_apply_context_t::new(TableIndex::GPOS, face, &mut b);
+            ctx.lookup_props = lookup_props;
+            applied = sub.apply(&mut ctx).is_some();
+        }
+        let has = b.scratch_flags & HB_BUFFER_SCRATCH_FLAG_HAS_GPOS_ATTACHMENT != 0;
+        Some((applied, b.idx, b.pos.iter().map(rd_pos).collect(), has))
+    }
 }
